@@ -42,39 +42,66 @@ FILES = ["sdk/include/opentelemetry/sdk/common/circular_buffer.h",
 JOBS = 4
 
 WRAPPER = r'''#!/usr/bin/env python3
-# runs the C11 driver on JOBS contiguous pieces of the case file in parallel and prints the lines in order
+# Runs the C11 driver on the case file and prints one line per case, in order.
+# Every case runs in the plain build (forking a sanitizer process per case costs ~10 ms of kernel time, which would not fit the
+# quick tier); the first SAN_HEAD cases (the directed schedules and the corpus) and every SAN_EVERY-th case after them run
+# again in the ASan+UBSan+LeakSanitizer build, and that build's line is the one printed for them (the driver is
+# deterministic, so the two lines differ only when a sanitizer fires: CRASH 98 / CRASH 99).
 import subprocess, sys, os, tempfile
-exe, jobs = %r, %d
+plain, san, jobs, san_head, san_every = %r, %r, %d, %d, %d
 lines = open(sys.argv[1]).read().split("\n")
 if lines and lines[-1] == "":
     lines.pop()
-n = len(lines)
-k = max(1, (n + jobs - 1) // jobs)
-parts = [lines[i:i + k] for i in range(0, n, k)]
 tmp = tempfile.mkdtemp(prefix="c11par")
-procs = []
-for i, p in enumerate(parts):
-    f = os.path.join(tmp, "p%%d" %% i)
-    with open(f, "w") as h:
-        h.write("\n".join(p) + "\n")
-    procs.append(subprocess.Popen([exe, f], stdout=subprocess.PIPE, stderr=subprocess.PIPE))
-rc, errs = 0, []
-for pr in procs:
-    out, err = pr.communicate()
-    sys.stdout.buffer.write(out)
-    rc = max(rc, pr.returncode)
-    if err:
-        errs.append(err)
-sys.stdout.flush()
-for i in range(len(parts)):
-    os.remove(os.path.join(tmp, "p%%d" %% i))
+errs = []
+rcmax = 0
+
+
+def run(exe, cases, tag):
+    global rcmax
+    if not cases:
+        return []
+    k = max(1, (len(cases) + jobs - 1) // jobs)
+    parts = [cases[i:i + k] for i in range(0, len(cases), k)]
+    procs, files = [], []
+    for i, p in enumerate(parts):
+        f = os.path.join(tmp, "%%s%%d" %% (tag, i))
+        with open(f, "w") as h:
+            h.write("\n".join(p) + "\n")
+        files.append(f)
+        procs.append(subprocess.Popen([exe, f], stdout=subprocess.PIPE, stderr=subprocess.PIPE))
+    out = []
+    for pr, p in zip(procs, parts):
+        o, e = pr.communicate()
+        got = o.decode("utf-8", "replace").split("\n")
+        if got and got[-1] == "":
+            got.pop()
+        got = (got + ["CRASH 1000 ; DRIVER-DIED"] * len(p))[:len(p)]
+        out += got
+        rcmax = max(rcmax, pr.returncode)
+        if e:
+            errs.append(e)
+    for f in files:
+        os.remove(f)
+    return out
+
+
+res = run(plain, lines, "p")
+idx = [i for i in range(len(lines)) if i < san_head or (i - san_head) %% san_every == 0]
+sres = run(san, [lines[i] for i in idx], "s")
+for i, l in zip(idx, sres):
+    res[i] = l
 os.rmdir(tmp)
-# sanitizer reports of the forked children (their cases already carry a CRASH line) go to a side file
+sys.stdout.write("".join(l + "\n" for l in res))
+sys.stdout.flush()
 if errs:
     with open(sys.argv[1] + ".stderr", "wb") as h:
         h.write(b"\n".join(errs))
-sys.exit(rc)
+sys.exit(0 if rcmax == 0 else 1)
 '''
+
+SAN_HEAD = 60
+SAN_EVERY = 9
 
 
 def build_driver():
@@ -82,15 +109,18 @@ def build_driver():
     # the rewrites this check relies on: head_, tail_, ptr_, flag_ are shim atomics; yield and sleep_for are shim calls
     if counts.get(r"std::atomic\s*<", 0) < 4 or counts.get(r"std::this_thread::", 0) < 2:
         raise TieBroken("shim copy: expected >= 4 std::atomic< and >= 2 std::this_thread:: rewrites in %s, got %r" % (FILES, counts))
-    exe = vlib.build_driver("c11_driver", DRIVER["srcs"], pre_flags=["-I" + inc], extra_flags=["-DNDEBUG"])
-    w = exe + "_par.py"
-    text = WRAPPER % (exe, JOBS)
+    plain = vlib.build_driver("c11_driver", DRIVER["srcs"], pre_flags=["-I" + inc], extra_flags=["-DNDEBUG"], variant="plain")
+    san = vlib.build_driver("c11_driver", DRIVER["srcs"], pre_flags=["-I" + inc], extra_flags=["-DNDEBUG"])
+    w = san + "_par.py"
+    text = WRAPPER % (plain, san, JOBS, SAN_HEAD, SAN_EVERY)
     if not os.path.exists(w) or open(w).read() != text:
         with open(w, "w") as f:
             f.write(text)
         os.chmod(w, os.stat(w).st_mode | stat.S_IXUSR | stat.S_IXGRP | stat.S_IXOTH)
     return w
 
+
+ENV = {}
 
 # ----------------------------------------------------------------------------------------------- cases
 def ring_case(max_size, prods, chunks, sched):
